@@ -270,6 +270,76 @@ def eval_one(ctx: Ctx, c: dict):
     check_rendering(ctx, c, w, ms, pt, full_w, key, m.origin, c["pad"])
 
 
+def true_full_size(c, m):
+    """the size of the complete rendering, computed without Message.to_wire: the sections through a Renderer with an
+    unreachable limit, plus the OPT and (uncompressed) TSIG records from the case"""
+    r = dns.renderer.Renderer(m.id, int(m.flags), 2 ** 31, m.origin)
+    for sec in range(4):
+        for rr in m.sections[sec]:
+            if sec == 0:
+                r.add_question(rr.name, rr.rdtype, rr.rdclass)
+            else:
+                r.add_rrset(sec, rr, want_shuffle=False)
+    return r.output.tell() + fixed_tail_size(c)
+
+
+def eval_limits(ctx: Ctx, c: dict):
+    """explicit max_size values far from the message size (0, tiny, around 512, around and far above 65535), both modes,
+    with and without prepend_length: the effective limit is min(max(limit or request_payload or 65535, 512), 65535)"""
+    pin_time()
+    m, key = mk_message(c)
+    origin = m.origin
+    full = true_full_size(c, m)
+    _, full_w = render(m, 65535)
+    rp = c.get("request_payload", 0)
+    toks = model_tokens(c)
+    for pt in (False, True):
+        tag = "truncate" if pt else "strict"
+        outs = []
+        for lim in c["limits"]:
+            cc = dict(c, max_size=lim, prefer_truncation=pt)
+            eff = eff_limit(lim, rp)
+            try:
+                w = m.to_wire(max_size=lim, prefer_truncation=pt, want_shuffle=False)
+                line = "ok"
+            except dns.exception.TooBig:
+                w, line = None, "err TooBig"
+            except Exception as e:  # noqa: BLE001 — any other exception is a violation
+                w, line = None, "err " + type(e).__name__
+                fail(ctx, f"C08/to_wire/raises/{type(e).__name__}", f"to_wire(max_size={lim}, prefer_truncation={pt}) raised {type(e).__name__}", cc)
+            outs.append(f"{lim}={digest(c, line, w)}")
+            ctx.count(f"limits.{tag}." + ("ok" if w is not None else line.split(" ")[1]))
+            if w is None:
+                if line == "err TooBig":
+                    if not pt and full <= eff:
+                        fail(ctx, "C08/to_wire/strict/TooBig-although-fits", f"the complete message is {full} octets, effective limit {eff} (max_size={lim})", cc)
+                    if pt and 12 + fixed_tail_size(c) <= eff:
+                        fail(ctx, "C08/to_wire/truncate/TooBig-without-padding", f"prefer_truncation at max_size={lim} raised TooBig", cc)
+            else:
+                if len(w) > eff:
+                    fail(ctx, f"C08/to_wire/{tag}/exceeds-limit", f"{len(w)} octets rendered under an effective limit of {eff} (max_size={lim})", cc)
+                if not pt and len(w) != full:
+                    fail(ctx, "C08/to_wire/strict/not-the-full-message", f"{len(w)} octets, the complete message has {full}", cc)
+                if pt and full > eff and len(w) >= full:
+                    fail(ctx, "C08/to_wire/truncate/not-truncated", f"{len(w)} octets although the complete message ({full}) exceeds the effective limit {eff}", cc)
+                if len(w) <= 65535:
+                    check_rendering(ctx, c, w, lim, pt, full_w, key, origin, c["pad"])
+            # prepend_length: the same outcome, the same octets behind a two-octet length
+            try:
+                w2 = m.to_wire(max_size=lim, prefer_truncation=pt, want_shuffle=False, prepend_length=True)
+                l2 = "ok"
+            except dns.exception.TooBig:
+                w2, l2 = None, "err TooBig"
+            except Exception as e:  # noqa: BLE001
+                w2, l2 = None, "err " + type(e).__name__
+                fail(ctx, f"C08/to_wire/prepend-length/raises/{type(e).__name__}", f"to_wire(max_size={lim}, prefer_truncation={pt}, prepend_length=True) raised {type(e).__name__}", cc)
+            if (w is None) != (w2 is None) or (w is not None and w2 != struct.pack("!H", len(w) & 0xFFFF) + w):
+                if l2 in ("ok", "err TooBig"):
+                    fail(ctx, "C08/to_wire/prepend-length/differs", f"max_size={lim}: without the prefix {line}, with it {l2}; not length + the same octets", cc)
+        ctx.corr(f"c08.limits {int(pt)} {','.join(str(x) for x in c['limits'])} {toks}", "ok " + " ".join(outs), c)
+    ctx.count("limits")
+
+
 def eval_steps(ctx: Ctx, c: dict):
     """Renderer-level trace: every add_* in order, continuing after TooBig; rollback must restore buffer and table"""
     pin_time()
@@ -332,6 +402,8 @@ def eval_case(ctx: Ctx, c: dict):
         eval_one(ctx, c)
     elif k == "steps":
         eval_steps(ctx, c)
+    elif k == "limits":
+        eval_limits(ctx, c)
     else:
         raise ValueError(k)
 
@@ -392,8 +464,64 @@ def run_one(ctx, c):
     eval_case(ctx, c)
 
 
+BIG_LIMITS = [0, 65534, 65535, 65536, 70000, 100000, 2 ** 31]
+SMALL_LIMITS = [0, 1, 12, 511, 512, 513, 65535, 65536]
+
+
+def gen_large(rng, target, want_opt, want_tsig):
+    """a message of a few hundred opaque records whose complete rendering is exactly `target` octets (around 64 KiB)"""
+    def rr(name, rdtype, rds, ttl=300):
+        return {"name": hexl(name), "rdclass": 1, "rdtype": rdtype, "covers": 0, "deleting": None, "ttl": ttl, "rdatas": rds}
+    base = [b"example", b""]
+    c = {"kind": "limits", "id": rng.below(65536), "flags": rng.choice([0x8400, 0x8000, 0x8600]), "origin": None, "request_payload": 0,
+         "pad": 0, "sections": [[rr([b"big"] + base, 16, [], 0)], [], [], []], "opt": None, "tsig": None, "limits": BIG_LIMITS}
+    if want_opt:
+        c["opt"] = {"ttl": rng.choice([0, 0x8000]), "payload": rng.choice([1232, 4096, 65535]), "options": [[10, rng.bytes(8).hex()]] if rng.chance(1, 2) else []}
+    if want_tsig:
+        c["tsig"] = {"name": hexl([b"key"] + (base if rng.chance(1, 2) else [b"other", b""])), "alg": hexl([b"hmac-sha256", b""]), "time": C03.FIXED_TIME,
+                     "fudge": 300, "mac": "", "orig_id": c["id"], "error": 0, "other": ""}
+        c["secret"] = rng.bytes(16).hex()
+    size = 12 + 13 + 4 + fixed_tail_size(c)
+    i = 0
+    while size < target - 2600:
+        k = 3 + rng.below(7)
+        rds = [{"k": "o", "b": (bytes([i % 256, j]) + rng.bytes(150 + rng.below(100))).hex()} for j in range(k)]
+        own = [b"r%d" % i] + base
+        sec = 1 if size < target // 2 else 2 if size < target * 3 // 4 else 3
+        c["sections"][sec].append(rr(own, 65280, rds))
+        size += (len(own[0]) + 1 + 2) + 10 + len(bytes.fromhex(rds[0]["b"])) + sum(2 + 10 + len(bytes.fromhex(x["b"])) for x in rds[1:])
+        i += 1
+    # the last record set takes the message to exactly `target`
+    own = [b"last"] + base
+    rest = target - size - (5 + 2 + 10)
+    if rest < 1:
+        return None
+    c["sections"][3].append(rr(own, 65281, [{"k": "o", "b": rng.bytes(rest).hex()}]))
+    m, _ = mk_message(c)
+    if true_full_size(c, m) != target:
+        return None
+    return c
+
+
 def generate(ctx: Ctx, scale: int, rng):
     n = lambda q: max(1, q * scale)
+    # explicit limits far from the message size: around and above 64 KiB on large messages, around 512 and below on small ones
+    targets = [65535, 65536] if scale == 1 else [65000, 65533, 65534, 65535, 65536, 65537, 66000, 70000, 72000] * max(1, scale // 10)
+    for j, t in enumerate(targets):
+        c = gen_large(rng, t, want_opt=rng.chance(1, 2) if scale > 1 else j == 0, want_tsig=rng.chance(1, 2) if scale > 1 else j == 1)
+        if c is None:
+            ctx.count("gen.rejected")
+            continue
+        run_one(ctx, c)
+    for i in range(n(6)):
+        c = gen_sized(rng, rng.choice([40, 300, 505, 511, 512, 513, 520, 560]), want_opt=rng.chance(1, 2), want_tsig=rng.chance(1, 3))
+        if c is None:
+            ctx.count("gen.rejected")
+            continue
+        c["kind"] = "limits"
+        c["request_payload"] = rng.choice([0, 0, 100, 512, 530, 1232, 70000])
+        c["limits"] = SMALL_LIMITS
+        run_one(ctx, c)
     for i in range(n(11)):
         c = gen_sized(rng, rng.choice([520, 600, 700, 800, 900, 1000, 1200, 1500]))
         if c is None:
